@@ -61,6 +61,10 @@ func runC12(c *Ctx) error {
 	inRng := rand.New(rand.NewSource(c.Seed*67 + 29))
 	for gi := 0; gi < nG; gi++ {
 		f := synFilter{nonEmpty: true, actionMode: 0, simpleLex: true, class: func(k model.LRClass) bool { return k != model.ClassAcceptReduce }}
+		if gi%6 == 3 {
+			f.family = func(int) string { return "deadnt" }
+			f.nonEmpty = false
+		}
 		switch gi % 3 {
 		case 1:
 			f.ambiguous = true
